@@ -18,6 +18,7 @@ RULE = ("random sequences of all classes (quick <= 80, thorough <= 200 residues)
         "kappa_X value is defined (not -1)")
 RULE += ("; added after the mutation rounds: objects with phosphosites set; numpy.str_ group members; short linkers whose recoded ratio falls in (1,1.1); the first cases of every shard are judged again at its end")
 RULE += ("; round 6: very unequal group sizes with >= 18 residues outside both groups; reference and swap law on the default groups; a group given as one string that reads as a word (CHARGED, ACIDIC, ...)")
+RULE += ("; round 7: groups handed over as frozenset; invalid members inside tuple / set / frozenset groups")
 EXHAUSTIVE = {"quick": False, "thorough": False}
 ASSUMPTIONS = [
     "identities between two library results are judged to 1e-9 relative (recoding swaps which class is called "
@@ -91,6 +92,8 @@ def variant(rng, grp):
         return list(numpy.array(g))           # an ordinary list whose letters came out of a numpy array (numpy.str_ objects)
     if kind < 0.25:
         return tuple(g)
+    if kind < 0.33:
+        return frozenset(g)
     if kind < 0.4:
         return set(g)
     if kind < 0.55:
@@ -273,12 +276,15 @@ def judge(case, rep, S):
         grp = list(good)
         grp.insert(rng.choice([0, len(grp), len(grp), rng.randint(0, len(grp))]), bad)
         other = rng.sample([x for x in M.AA if x not in good] or list(M.AA), 3)
+        form = rng.choice([list, list, tuple, set, frozenset])        # the container does not make a bad member good
+        if form is not list:
+            rep.cnt("invalid_groups_in_other_containers")
         for which in (1, 2):
             try:
                 if which == 1:
-                    r = obj.get_kappa_X(grp, other if rng.random() < 0.5 else None)
+                    r = obj.get_kappa_X(form(grp), other if rng.random() < 0.5 else None)
                 else:
-                    r = obj.get_kappa_X(other, grp)
+                    r = obj.get_kappa_X(other, form(grp))
             except Exception:
                 rep.cnt("invalid_groups_rejected")
             else:
